@@ -8,6 +8,7 @@ import DesyncModel.Tables.Wake
 import DesyncModel.Lemmas
 import DesyncModel.Setters
 import DesyncModel.Inv.JobReach
+import DesyncModel.Inv.ResReach
 
 namespace Desync.C13
 open Desync Gen
@@ -74,5 +75,12 @@ theorem suspended_queue_holds_later_work {s : State} (hr : Reachable s) {j : Nat
       rw [hend] at this; cases this
   · intro hlt
     exact hio j' j b' b hb' hb hq hlt hbeg
+
+/-- **The future returned by `suspend` resolves only once the suspend job has begun**: an activity about to signal
+`finished_suspending` for suspend job `j` finds that job begun — and a begun job has only ended predecessors on its object
+(C02, `InOrder`), which is "every operation scheduled before the suspend request has completed". -/
+theorem suspend_signal_comes_from_a_begun_suspend_job {s : State} (hr : Reachable s) {a j : Nat} {c : Ctx} {k : Pc}
+    (hpc : s.pcAt a = .suspSignal j c k) : ∃ jb : Job, s.jobs[j]? = some jb ∧ jb.begun = true :=
+  (resInv_reachable hr).sus a j (by rw [hpc]; simp [Pc.suspSigs])
 
 end Desync.C13
